@@ -1,6 +1,7 @@
 package props
 
 import (
+	"strings"
 	"bytes"
 	"encoding/json"
 	"fmt"
@@ -59,9 +60,15 @@ func drawC17(src *vs.Src) *c17Params {
 	if src.Bool(2, 5) {
 		p.Mode = "pmtu"
 		pm := func() int {
-			switch src.Intn(5) {
+			switch src.Intn(6) {
 			case 0:
 				return 0
+			case 5:
+				// near the smallest workable value: every message, Finished included, is fragmented
+				if IsCBC(p.Suite) {
+					return 77 + src.Intn(24)
+				}
+				return 50 + src.Intn(50)
 			case 1:
 				return 100 + src.Intn(60)
 			case 2:
@@ -83,7 +90,7 @@ func drawC17(src *vs.Src) *c17Params {
 			p.Auth = true
 		}
 	}
-	p.Variant = pickStr(src, []string{"cover", "cover", "cover", "gap", "gap", "beyond", "conflict-first", "conflict-later", "seq-flood", "interleave", "interleave"})
+	p.Variant = pickStr(src, []string{"cover", "cover", "cover", "gap", "gap", "beyond", "beyond-whole", "conflict-first", "conflict-later", "seq-flood", "interleave", "interleave"})
 	p.Pieces = 2 + src.Intn(12)
 	return p
 }
@@ -94,6 +101,10 @@ func c17Plan(src *vs.Src, p *c17Params, body []byte) []peer.FragSpec {
 	n := len(body)
 	if n < 2 {
 		return nil
+	}
+	if p.Variant == "beyond-whole" {
+		// one fragment at offset 0 that carries the whole message and some bytes more than the announced length
+		return []peer.FragSpec{{Off: 0, Len: n + 1 + src.Intn(20)}}
 	}
 	if p.Variant == "seq-flood" {
 		// hundreds of one-byte fragments of messages that will never be completed, each under its own
@@ -343,6 +354,7 @@ func c17Frag(c *Case, src *vs.Src, p *c17Params, r *Result) *Result {
 	var plan []peer.FragSpec
 	var bodyLen int
 	targetType := map[string]byte{"CERT": ref.TCertificate, "SKX": ref.TServerKeyExchange, "SH": ref.TServerHello, "CKE": ref.TClientKeyExchange, "CV": ref.TCertificateVerify}[p.Target]
+	recvAtPlan := -1 // how many messages the scripted side had received when it sent the fragment plan
 	var stash *peer.FragSpec // interleave: the second part of the target message, sent inside the next message
 	h.Peer.FragPlan = func(typ byte, body []byte) []peer.FragSpec {
 		// interleaving needs a following handshake message with a body, sent before ChangeCipherSpec, and the
@@ -375,6 +387,7 @@ func c17Frag(c *Case, src *vs.Src, p *c17Params, r *Result) *Result {
 		}
 		plan = c17Plan(src, p, body)
 		bodyLen = len(body)
+		recvAtPlan = len(h.Peer.Received)
 		return plan
 	}
 	var realErr error
@@ -434,7 +447,7 @@ func c17Frag(c *Case, src *vs.Src, p *c17Params, r *Result) *Result {
 		return r
 	}
 	covered := c17Covered(plan, bodyLen)
-	conflict := p.Variant == "conflict-first" || p.Variant == "conflict-later" || p.Variant == "beyond" || p.Variant == "seq-flood"
+	conflict := p.Variant == "conflict-first" || p.Variant == "conflict-later" || p.Variant == "beyond" || p.Variant == "beyond-whole" || p.Variant == "seq-flood"
 	switch {
 	case completed && !covered:
 		r.Violate("incomplete-accepted", sigp+" completed-without-coverage", "the %s completed although the fragments of %s (%d bytes) do not cover every byte: %v", p.Role, p.Target, bodyLen, plan)
@@ -442,6 +455,16 @@ func c17Frag(c *Case, src *vs.Src, p *c17Params, r *Result) *Result {
 		r.Violate("late-duplicate", "C17 frag late-duplicate-fragment", "the %s failed (%v) because fragments of %s (%d bytes) that duplicate already delivered bytes arrived after the message was complete: %v", p.Role, realErr, p.Target, bodyLen, plan)
 	case !completed && covered && !conflict:
 		r.Violate("complete-rejected", sigp+" covered-but-failed", "the %s failed (%v, run %s, unfinished %v, peer %s) although the fragments of %s (%d bytes) cover every byte: %v", p.Role, realErr, reason, unf, peerNote, p.Target, bodyLen, plan)
+	}
+	if p.Variant == "beyond-whole" && recvAtPlan >= 0 {
+		// the only fragment of the message exceeds the announced length: it is rejected, so the endpoint cannot
+		// have gone on to answer the flight that contains it
+		for _, k := range h.Peer.Received[recvAtPlan:] {
+			if !strings.HasPrefix(k, "ALERT") {
+				r.Violate("out-of-bounds-accepted", sigp+" out-of-bounds-fragment-accepted", "the %s went on with the handshake (sent %v) after a fragment of %s at offset 0 with %d bytes, %d more than the announced length", p.Role, h.Peer.Received[recvAtPlan:], p.Target, plan[0].Len, plan[0].Len-bodyLen)
+				break
+			}
+		}
 	}
 	if maxN > 256 || maxB > 256*(65536+8200) {
 		r.Violate("fragment-memory", sigp+" fragment-state-unbounded", "pending fragment state reached %d buffers / %d bytes", maxN, maxB)
